@@ -21,8 +21,8 @@ func init() {
 	core.Register(&core.Check{
 		ID: "C01", Level: "other", Title: "Binary codec round-trips and fails safely on truncated input",
 		Technique: "decision-table extraction by interval analysis over the comparison chain of the var-uint encoders and the tag switch of the decoders, sibling table agreement, guard dominance for every buffer access, who-may-index on the source buffer, callee identity for byte order and width",
-		Explain: "Decided statically on package common and common/serialization. (Var-uint tables) from ZeroCopySink.WriteVarUint, serialization.WriteVarUint and GetVarUintSize the table (interval of the value → tag byte, payload width) is extracted by intersecting the dominating comparisons of the value parameter; the tables must partition [0, 2^64), be identical in all three, use the direct form only below 0xFD (a one-byte value can never be taken for a tag), never truncate (upper bound < 2^(8·width)) and report size = 1 + width; the decoders ZeroCopySource.NextVarUint and serialization.ReadVarUint map tags 0xFD/0xFE/0xFF to widths 2/4/8 and anything else to the byte itself. (Bounds) only NextBytes, Skip, NextByte, OffBytes and Bytes touch the source buffer; in NextBytes/Skip the end position is SafeAdd's sum only on the edge where neither the overflow flag nor end > len holds and len otherwise; NextByte indexes only after off < len; SafeAdd reports overflow as y > MAX_UINT64 - x; every fixed-width reader decodes its bytes only on the !eof edge of the NextBytes call that produced them, and NextVarBytes reads its body only after the length was read without eof. (Pairing) WriteUintN/NextUintN and the stream variants use binary.LittleEndian Put/UintN of the same N, and readers request exactly N/8 bytes. (Bool) NextBool answers a value only for bytes 0 and 1 and reports an error for any other byte. NOT decided: round-trip equality of values as such, BackUp misuse by callers, the large-length path of the stream byte reader.",
-		Run: runC01,
+		Explain:   "Decided statically on package common and common/serialization. (Var-uint tables) from ZeroCopySink.WriteVarUint, serialization.WriteVarUint and GetVarUintSize the table (interval of the value → tag byte, payload width) is extracted by intersecting the dominating comparisons of the value parameter; the tables must partition [0, 2^64), be identical in all three, use the direct form only below 0xFD (a one-byte value can never be taken for a tag), never truncate (upper bound < 2^(8·width)) and report size = 1 + width; the decoders ZeroCopySource.NextVarUint and serialization.ReadVarUint map tags 0xFD/0xFE/0xFF to widths 2/4/8 and anything else to the byte itself. (Bounds) only NextBytes, Skip, NextByte, OffBytes and Bytes touch the source buffer; in NextBytes/Skip the end position is SafeAdd's sum only on the edge where neither the overflow flag nor end > len holds and len otherwise; NextByte indexes only after off < len; SafeAdd reports overflow as y > MAX_UINT64 - x; every fixed-width reader decodes its bytes only on the !eof edge of the NextBytes call that produced them, and NextVarBytes reads its body only after the length was read without eof. (Pairing) WriteUintN/NextUintN and the stream variants use binary.LittleEndian Put/UintN of the same N, and readers request exactly N/8 bytes. (Bool) NextBool answers a value only for bytes 0 and 1 and reports an error for any other byte. NOT decided: round-trip equality of values as such, BackUp misuse by callers, the large-length path of the stream byte reader.",
+		Run:       runC01,
 	})
 }
 
@@ -332,7 +332,7 @@ func runC01(c *core.Ctx) {
 						continue
 					}
 					n++
-					if !allowed[f.Name()] {
+					if !allowed[f.Name()] && !onlyCalledFromAllowed(c, f, allowed) {
 						bad = append(bad, ir.FuncName(f))
 					}
 				}
@@ -397,7 +397,8 @@ func runC01(c *core.Ctx) {
 				okEnd = true
 			}
 		}
-		c.Decide(okEnd, "C01.bounds", fn, "the new position is the SafeAdd sum only when it neither overflowed nor exceeds len, and len otherwise", c.P.Rel(fn.Pos()), "")
+		// shape-independent form of the same clause (also when the computation lives in a helper)
+		c.Decide(okEnd || endPositionGuarded(c, fn, sa), "C01.bounds", fn, "the new position is the SafeAdd sum only when it neither overflowed nor exceeds len, and len otherwise", c.P.Rel(fn.Pos()), "")
 	}
 	if fn := c.Fn("common", "ZeroCopySource.NextByte"); fn != nil {
 		var reads []ir.Sink
@@ -535,7 +536,10 @@ func runC01(c *core.Ctx) {
 				}
 				return false, false
 			}}, ir.CallSinks(bodies, "body read"), "read of the body", nil)
-			c.Decide(func() bool { ex, ok := bodies[0].Common().Args[1].(*ssa.Extract); return ok && ex.Tuple == ssa.Value(nv) && ex.Index == 0 }(), "C01.bounds", fn, "the body length is the decoded prefix", c.P.Rel(fn.Pos()), "")
+			c.Decide(func() bool {
+				ex, ok := bodies[0].Common().Args[1].(*ssa.Extract)
+				return ok && ex.Tuple == ssa.Value(nv) && ex.Index == 0
+			}(), "C01.bounds", fn, "the body length is the decoded prefix", c.P.Rel(fn.Pos()), "")
 		} else {
 			c.Broken("C01.bounds", fn, "length prefix and body reads", c.P.Rel(fn.Pos()), "not found")
 		}
